@@ -20,10 +20,10 @@ ASSUMPTIONS = ['finite standard models with type-variable domains of size <= 3, 
                'evaluator calibrated at start-up: every theorem of logic_base must be valid in it']
 REQUIRED = {'quick': {'nested_scripts': 100, 'nested_accepted': 20, 'scripts_accepted': 300, 'sequents_judged': 1500, 'rules_all15_seen': 1,
                       'directed_svar_hyp_sequents': 60, 'directed_stv_in_hyp_only': 60, 'directed_stv_substitutions': 150, 'directed_capture_attempts': 60, 'directed_sharing_binders': 100,
-                      'open_term_arguments': 40},
+                      'open_term_arguments': 40, 'directed_open_compound_attempts': 60, 'open_compound_instances': 100},
             'thorough': {'nested_scripts': 1500, 'nested_accepted': 300, 'scripts_accepted': 5000, 'sequents_judged': 20000, 'rules_all15_seen': 1,
                          'directed_svar_hyp_sequents': 600, 'directed_stv_in_hyp_only': 600, 'directed_stv_substitutions': 1500, 'directed_capture_attempts': 600, 'directed_sharing_binders': 1000,
-                         'open_term_arguments': 400}}
+                         'open_term_arguments': 400, 'directed_open_compound_attempts': 600, 'open_compound_instances': 1000}}
 
 RULES = ['assume', 'implies_intr', 'implies_elim', 'reflexive', 'symmetric', 'transitive',
          'combination', 'equal_intr', 'equal_elim', 'subst_type', 'substitution', 'beta_conv',
@@ -129,6 +129,114 @@ class ScriptGen:
             return S.to_repo_term(('abs', self.rng.choice(self.tg.names), self.tg.rand_type(), ('bound', k + 1)))
         return S.to_repo_term(self.tg.gen(T, d))
 
+    OPEN_FORMS = ['app', 'app', 'app2', 'nested-app', 'redex-inner-abs', 'arg-inner-abs', 'eq', 'eq-right', 'connective', 'bare']
+
+    def open_instance(self, X, A, j, form=None):
+        """shadow of an OPEN term of type X whose loose index j (type A, the type of the binder it would be captured
+        by) does not stand alone: under applications (one or two deep, once or twice), inside an inner abstraction
+        (where it is index j + 1), as an operand of = or of a connective.  'bare' is the plain loose index"""
+        rng = self.rng
+        form = form or rng.choice(self.OPEN_FORMS)
+        L = ('bound', j)
+        B_ = S.BOOL
+        if form == 'eq' or form == 'eq-right' or form == 'connective':
+            if X != B_ or (form == 'connective' and A != B_):
+                form = 'app'
+        self.ctx.count('open_compound_instances')
+        self.ctx.count('open_form:' + form)
+        if form == 'bare':
+            return L
+        if form == 'app':
+            return ('comb', ('var', 'fo', S.fun(A, X)), L)
+        if form == 'app2':
+            return S.mk_comb(('var', 'fo2', S.funs(A, A, X)), L, rng.choice([L, ('var', 'co', A), ('bound', j + 1)]))
+        if form == 'nested-app':
+            return ('comb', ('var', 'fo', S.fun(A, X)), ('comb', ('var', 'go', S.fun(A, A)), L))
+        if form == 'redex-inner-abs':
+            # (%v. fo (Bound j+1)) co : the loose index sits under an abstraction of the instance itself
+            return ('comb', ('abs', 'v', A, ('comb', ('var', 'fo', S.fun(A, X)), ('bound', j + 1))), ('var', 'co', A))
+        if form == 'arg-inner-abs':
+            # Fo (%v. go (Bound j+1)) : loose index inside an abstraction that is itself an argument
+            return ('comb', ('var', 'Fo', S.fun(S.fun(A, A), X)),
+                    ('abs', 'v', A, ('comb', ('var', 'go', S.fun(A, A)), ('bound', j + 1))))
+        EQ = ('const', 'equals', S.funs(A, A, B_))
+        if form == 'eq':
+            return S.mk_comb(EQ, L, ('var', 'co', A))
+        if form == 'eq-right':
+            return S.mk_comb(EQ, ('var', 'co', A), L)
+        # connective over a boolean loose index
+        if rng.random() < 0.5:
+            return ('comb', ('const', 'neg', S.fun(B_, B_)), L)
+        return S.mk_comb(('const', rng.choice(['conj', 'disj', 'implies']), S.funs(B_, B_, B_)), ('var', 'po', B_), L)
+
+    def directed_open_compound(self):
+        """|- (%w. t[x]) a = t[x] by beta_conv (x free or schematic in t, possibly under binders of t itself), wrapped
+        in k more binders by abstraction / forall_intr: x now stands under k+1 binders on the left and under k on the
+        right.  Then the substitution x := <open term with its loose index in argument position / under an inner
+        abstraction>.  The rule must refuse it; if it does not, index j is captured by DIFFERENT binders on the two
+        sides (or stays loose on the right) and the accepted sequent is refutable / ill-typed"""
+        from kernel.term import Inst
+        rng = self.rng
+        B_ = S.BOOL
+        A = rng.choice([B_, B_, ('tv', 'a'), self.tg.rand_type()])
+        X = rng.choice([B_, A, A, self.tg.rand_type()])
+        kind = rng.choice(['svar', 'svar', 'var'])
+        nx = rng.choice(['xo', 'x', 'uo'])
+        x = (kind, nx, X)
+        shape = rng.choice(['bare', 'app', 'app', 'inner-abs', 'quant', 'eq'])
+        d = 0                       # binders of t itself above x
+        if shape == 'bare':
+            t = x
+        elif shape == 'app':
+            R = rng.choice([B_, X, A])
+            t = ('comb', ('var', 'ho', S.fun(X, R)), x)
+        elif shape == 'eq':
+            t = S.mk_comb(('const', 'equals', S.funs(X, X, B_)), x, ('var', 'eo', X))
+        elif shape == 'inner-abs':
+            t = ('abs', 'z', A, S.mk_comb(('var', 'ho2', S.funs(A, X, B_)), ('bound', 0), x))
+            d = 1
+        else:
+            t = ('comb', ('const', 'all', S.fun(S.fun(A, B_), B_)),
+                 ('abs', 'z', A, S.mk_comb(('var', 'ho2', S.funs(A, X, B_)), ('bound', 0), x)))
+            d = 1
+        k = rng.choice([0, 1, 1, 2, 2, 3])
+        ys = [('var', 'yo%d' % i, A if rng.random() < 0.85 else self.tg.rand_type()) for i in range(1, k + 1)]
+        a = ('var', 'ao', A)
+        if ys and ys[0][2] == A and rng.random() < 0.3:
+            a = ys[0]
+        b = len(self.shs)
+        if not self.add('beta_conv', S.to_repo_term(('comb', ('abs', 'w', A, t), a)), []):
+            return False
+        try:
+            t_is_bool = S.typeof(t) == B_
+        except S.ShadowError:
+            t_is_bool = False
+        quant = False
+        for y in ys:
+            # abstraction keeps an equation; forall_intr ends the run of abstractions
+            if not quant and rng.random() < 0.6:
+                rule = 'abstraction'
+            else:
+                rule, quant = 'forall_intr', True
+            if not self.add(rule, S.to_repo_term(y), [len(self.shs) - 1]):
+                return False
+        # index relative to the position of x: d = innermost binder outside t on the right (w on the left)
+        j = d + rng.choice([0, 0, 0, 1, 1, 2])
+        if rng.random() < 0.1:
+            j = rng.randrange(0, d + 1)
+        inst = Inst()
+        open_t = S.to_repo_term(self.open_instance(X, A, j))
+        if kind == 'svar':
+            inst[nx] = open_t
+        else:
+            inst.var_inst[nx] = open_t
+        self.ctx.count('directed_open_compound_attempts')
+        self.ctx.count('directed_open_compound:depth=%d' % (k + d))
+        ok = self.add('substitution', inst, [len(self.shs) - 1])
+        if ok:
+            self.ctx.count('directed_open_compound_accepted_by_rule')
+        return ok
+
     def directed_capture(self):
         """|- (!y. y = x) --> (!u v. u = v) for a free (or schematic) x, then the substitution x := <loose bound
         variable>: if the rule accepts the open term it is captured by !y and the result is refutable"""
@@ -151,7 +259,13 @@ class ScriptGen:
             if not self.add(rule, args, prevs):
                 return False
         inst = Inst()
-        open_t = S.to_repo_term(rng.choice([('bound', 0), ('bound', 0), ('bound', 1)]))
+        if rng.random() < 0.5:
+            open_t = S.to_repo_term(rng.choice([('bound', 0), ('bound', 0), ('bound', 1)]))
+        else:
+            # compound open instance (loose index in argument position / under an inner abstraction): with fo = the
+            # identity the captured hypothesis !y. y = fo y is true and the conclusion !u v. u = v is not
+            open_t = S.to_repo_term(self.open_instance(T, T, rng.choice([0, 0, 0, 1])))
+            self.ctx.count('directed_capture_compound_attempts')
         if kind == 'svar':
             inst[nx] = open_t
         else:
@@ -365,6 +479,8 @@ class ScriptGen:
             return self.directed_svar_hyp()
         if r0 < 0.13:
             return self.directed_stv_in_hyp_only()
+        if r0 < 0.16:
+            return self.directed_open_compound()
         if rule == 'assume':
             t = None
             r = rng.random()
@@ -478,6 +594,8 @@ class ScriptGen:
                 if a[0] in ('svar', 'var') and rng.random() < 0.06:
                     # an open instance: captured if the variable stands under a binder and the rule lets it through
                     t_open = S.to_repo_term(('bound', rng.choice([0, 0, 1])))
+                    if rng.random() < 0.5:
+                        t_open = S.to_repo_term(self.open_instance(a[2], rng.choice([a[2], self.tg.rand_type()]), rng.choice([0, 0, 1])))
                     if a[0] == 'svar' and a[1] not in inst:
                         inst[a[1]] = t_open
                     elif a[0] == 'var' and a[1] not in inst.var_inst:
@@ -524,6 +642,15 @@ class ScriptGen:
         return False
 
 
+def open_instances(inst):
+    """names of the variables an Inst maps to an OPEN term (judged on the shadow, not by Term.is_open)"""
+    try:
+        items = list(inst.items()) + list(inst.var_inst.items())
+    except AttributeError:
+        return []
+    return [k for k, v in items if not S.is_closed(S.tm_shadow(v))]
+
+
 def classify(rule, step, premise_shs):
     """mechanism key of a refuted rule application (known-findings are keyed by this)."""
     if rule in ('forall_intr', 'abstraction') and step['args'] is not None and premise_shs:
@@ -532,6 +659,8 @@ def classify(rule, step, premise_shs):
             return rule + ':schematic-variable-free-in-hypothesis'
         if x[0] == 'var' and any(x in S.atoms(h) for h in premise_shs[0][0]):
             return rule + ':variable-free-in-hypothesis'
+    if rule == 'substitution' and open_instances(step['args']):
+        return 'substitution:open-instance-accepted:loose-bound-captured-by-enclosing-binder'
     return rule + ':unsound-application'
 
 
@@ -555,6 +684,8 @@ def judge_proof(ctx, prf, steps, cache, seedinfo):
                 ctx.count('downstream_of_bad_premise')
                 continue
             mech = classify(st['rule'], st, prem) if res == 'refuted' else st['rule'] + ':accepted-ill-typed-sequent'
+            if res == 'ill_typed' and st['rule'] == 'substitution' and open_instances(st['args']):
+                mech = 'substitution:open-instance-accepted:ill-typed-or-open-sequent'
             if res == 'refuted' and not sh[0] and sh[1] == ('const', 'false', S.BOOL):
                 mech += '+proves-false'
             desc = 'check_proof accepted %s yielding %s |- %s ; %s: %s' % (
